@@ -46,6 +46,9 @@ class Server(BaseComponent):
         """
         super().__init__(channel=channel, **kwargs)
 
+        # connections of THIS server (the class attribute was shared by all)
+        self.__protocols = {}
+
         bind = (server_ip, port)
         self.server = TCPServer(bind, channel=self.channel, **kwargs)
         self.server.register(self)
